@@ -291,6 +291,24 @@ func genC17(r *rand.Rand, tier string) []Case {
 		c.Steps = append(c.Steps, dbStep{Op: "reopen", Opts: &o}, dbStep{Op: "get", K: keys[0]}, dbStep{Op: "get", K: keys[1]}, dbStep{Op: "reopen", Opts: &o}, dbStep{Op: "get", K: keys[0]})
 		cases = append(cases, c)
 	}
+	// bursts of rotations that do not wait for the flusher: a value that has left the write store must be readable at
+	// every moment (from the store being flushed or from its table), through both flavours
+	for i := 0; i < nh; i++ {
+		keys := [][]byte{[]byte("a"), []byte("b"), []byte("c")}
+		c := &c17Case{Keys: keys, Opts: dbOpts{MemstoreBytes: 500000, Threshold: 10, MaxSize: 5 << 30, RatioPct: 20, WBuf: 4096, RBuf: 4096, AsyncWAL: i%2 == 0}}
+		for j := 0; j < 10+r.Intn(20); j++ {
+			k, k2 := keys[j%3], keys[(j+1)%3]
+			c.Steps = append(c.Steps, dbStep{Op: []string{"put", "putb"}[j%2], K: k, V: []byte(fmt.Sprintf("burst-%04d", j))}, dbStep{Op: "rotnw"})
+			if r.Intn(3) == 0 {
+				c.Steps = append(c.Steps, dbStep{Op: "del", K: k2})
+			} else {
+				c.Steps = append(c.Steps, dbStep{Op: "put", K: k2, V: []byte(fmt.Sprintf("other-%04d", j))})
+			}
+			c.Steps = append(c.Steps, dbStep{Op: "rotnw"}, dbStep{Op: "get", K: k}, dbStep{Op: "getb", K: k2})
+		}
+		c.Steps = append(c.Steps, dbStep{Op: "putb", K: keys[0], V: []byte{}}, dbStep{Op: "put", K: keys[0], V: []byte("x")}, dbStep{Op: "put", K: keys[1], V: []byte("y")})
+		cases = append(cases, c)
+	}
 	return cases
 }
 
@@ -376,6 +394,7 @@ func init() {
 			for i := 0; i < n; i++ {
 				out = append(out, &c17Any{Crash: genC17Crash(r)})
 			}
+			out = append(out, &c17Any{Crash: genDeleteTailCrashCase(r, true)})
 			return out
 		},
 		New:  func() Case { return &c17Any{} },
